@@ -37,10 +37,19 @@ func (m *Msg) String() string { return m.Key }
 type MsgTable struct {
 	mu    sync.RWMutex
 	byKey map[string]*Msg
+	bySig map[string]*Msg // votes by signature (fast path for re-interning votes read out of vote sets)
 	all   []*Msg
 }
 
-func newMsgTable() *MsgTable { return &MsgTable{byKey: map[string]*Msg{}} }
+func newMsgTable() *MsgTable { return &MsgTable{byKey: map[string]*Msg{}, bySig: map[string]*Msg{}} }
+
+// voteBySig returns the interned message of an already known vote.
+func (t *MsgTable) voteBySig(sig []byte) *Msg {
+	t.mu.RLock()
+	m := t.bySig[string(sig)]
+	t.mu.RUnlock()
+	return m
+}
 
 func (t *MsgTable) intern(m *Msg) *Msg {
 	t.mu.RLock()
@@ -57,6 +66,9 @@ func (t *MsgTable) intern(m *Msg) *Msg {
 	m.id = int32(len(t.all))
 	t.all = append(t.all, m)
 	t.byKey[m.Key] = m
+	if m.Kind == 'V' {
+		t.bySig[string(m.Vote.Signature)] = m
+	}
 	return m
 }
 
